@@ -42,7 +42,7 @@ SPEC = dict(
              ("cli", "incr_dispatch"), ("v1patterns", "_compile_pattern_re")],
 )
 
-BIDS = ["0001", "0999", "1000", "1001", "1999", "8999", "9998", "22000", "0033", "10000", "99998"]
+BIDS = ["0001", "0999", "1000", "1001", "1999", "8999", "9998", "22000", "0033", "10000", "99998", "0000"]
 PINNED = [
     {"kind": "rt", "pattern": "{year}.{month_short}.{dom_short}", "date": "2028-08-20", "bid": "1000", "tag": "final",
      "mmp": [0, 0, 0]},
